@@ -59,18 +59,28 @@ let run_udp up comp left evops =
   let s = ref (init (z_of_zt base_us) [nat_of_int 0]) in
   s := step !s (OStats (z_of_string up, z_of_string comp, z_of_string left));
   s := step !s (OEnable true);
-  let outs = List.map (fun o ->
+  let outs = List.map (fun tok ->
+    let n = String.length tok in
+    let silent = n > 0 && tok.[n - 1] = '!' in
+    let o = if silent then String.sub tok 0 (n - 1) else tok in
     let ops = match o with
       | "ss" -> [OSendStart] | "sc" -> [OSendCompleted] | "sp" -> [OSendStop] | "mr" -> [OManual]
       | "ST" -> [ODisable; OEnable true; OSendStart]
       | "SP" -> [OSendStop; ODisable; OEnable false]
+      | "nx" -> [ONext]
       | _ -> raise Badop in
     let before = List.length !s.log in
     List.iter (fun op -> s := step !s op) ops;
     let nnew = List.length !s.log - before in
-    if nnew = 0 then "-"
-    else begin
+    let busy = List.exists (fun t -> t.t_busy) !s.trs in
+    if not busy then "-"
+    else if silent then begin
+      (* worker-side timeout = a failure reply without intervals *)
+      s := step !s (OFailure (nat_of_int 0, None));
+      "timeout"
+    end else begin
       let r = List.hd !s.log in
+      ignore nnew;
       (* TrackerUdp: interval from the reply (1800), min interval = default_min_interval *)
       s := step !s (OSuccess (nat_of_int 0, z_of_int 1800, z_of_int 600));
       Printf.sprintf "%s:%s:%s:%s" (string_of_z (wire_event r.r_ev)) (string_of_z r.r_comp) (string_of_z r.r_left) (string_of_z r.r_up)
